@@ -70,7 +70,8 @@ PLANS = {
         'level': 'model_checking', 'rule': RULE_HIST + '; request menu = a base question and its near misses, replies with TTL mixes, virtual-time advances, server-list changes and reinit; reference cache keyed by (flags,type,class,lower-case name) built from the packets the library actually read', 'assumptions': ASSUME, 'targets': T,
         'deadline': {'quick': 420, 'thorough': 2400},
         'jobs': [
-            job('cache', 'cache', 'C08', {'quick': 4, 'thorough': 5}, 0, wit=['c08_cache_hit', 'c08_aged_hit_ttl_checked']),
+            job('cache', 'cache', 'C08', {'quick': 4, 'thorough': 4}, 0, wit=['c08_cache_hit', 'c08_aged_hit_ttl_checked']),
+            job('cache-deep', 'cache-deep', 'C08', {'quick': 5, 'thorough': 5}, 0, tiers=('thorough',), wit=['c08_cache_hit', 'c08_aged_hit_ttl_checked']),
         ],
     },
     'C10': {
@@ -101,7 +102,7 @@ PLANS = {
         'level': 'model_checking', 'rule': RULE_HIST + '; answer grammar (single, multi, CNAME chain, mixed families + foreign class) x hints x sortlists x lookup orders x hosts files; provenance markers per resource record', 'assumptions': ASSUME, 'targets': T,
         'deadline': {'quick': 420, 'thorough': 2400},
         'jobs': [
-            job('addrs', 'addrs', 'C13', {'quick': 4, 'thorough': 5}, 0, wit=['c13_set_checked', 'c13_multi_address', 'c13_non_dns_checked', 'c13_loopback_checked', 'c13_reverse_question_checked']),
+            job('addrs', 'addrs', 'C13', {'quick': 4, 'thorough': 5}, 1, wit=['c13_set_checked', 'fault_fired', 'c13_multi_address', 'c13_non_dns_checked', 'c13_loopback_checked', 'c13_reverse_question_checked']),
         ],
     },
     'C17': {
